@@ -637,4 +637,134 @@ theorem refine_callsG (P : Program) (nm : List String → String) (O : Oracle) (
 
 end callsG
 
+/-! ## the call graph -/
+
+section graphG
+variable (P : Program) (hw : WellTypedG P) (F : Nat) (hF : NarrowFix P.table F)
+  (nm : List String → String) (O : Oracle) (ρ : Store)
+include hw hF
+
+theorem refine_callableG :
+    ∀ (fuel : Nat) (callee : String) (path : List String) (args : J) (cins : RBMap),
+      ArgsRelT P.table F ρ (P.insOf callee) args cins →
+      (∀ n ∈ (staticCallable P nm fuel callee path cins).2, StoreAtNode nm O ρ n) →
+      staticCallableOk P nm fuel callee path cins = true →
+      GoodT P.table F ρ callee (runCallable P O F fuel callee path [] args)
+        (staticCallable P nm fuel callee path cins) := by
+  intro fuel
+  induction fuel with
+  | zero =>
+    intro callee path args cins _ _ _
+    simp only [runCallable, staticCallable, GoodT, evalRT, List.flatMap_nil]
+    exact ⟨fun _ => trivial, HasTyR_null _ _, trivial⟩
+  | succ fuel ih =>
+    intro callee path args cins hargs hstore hok
+    simp only [runCallable, staticCallable] at hstore ⊢
+    simp only [staticCallableOk] at hok
+    cases hl : P.callables.lookup callee with
+    | none =>
+      simp only [GoodT, evalRT, List.flatMap_nil]
+      exact ⟨fun _ => trivial, HasTyR_null _ _, trivial⟩
+    | some cb =>
+      cases cb with
+      | stage sins souts =>
+        simp only [hl] at hstore
+        have hs := hstore ⟨path, callee, cins, []⟩ (by simp)
+        refine ⟨?_, ?_, ?_⟩
+        · intro f
+          simp only [evalRT, projPath]
+          have := hs f
+          simp only [List.map_nil] at this
+          rw [this]
+        · simp only [HasTyR, pathTy]
+          exact Sub.refl _
+        · obtain ⟨g, hc, ha, _⟩ := hargs
+          simp only [List.flatMap_cons, List.flatMap_nil, List.append_nil, instsOf, toInst, runtimeArgs,
+            hc, ha [], List.map_map, List.cons.injEq, and_true]
+          rfl
+      | pipeline pins outs calls ret =>
+        simp only [hl] at hstore hok
+        have hins : P.insOf callee = pins := by simp [Program.insOf, hl, Callable.ins]
+        rw [hins] at hargs
+        obtain ⟨L, hcalls, hret⟩ := hw.pipelines callee pins outs calls ret hl
+        have htab := hw.outsOf callee _ hl
+        simp only [Callable.outs] at htab
+        have hn := hw.structs _ _ htab
+        have hinit := envRel_initT P.table F ρ pins args cins hargs
+        have hcs := refine_callsG P.table hw.structs F hF ρ P nm O (runCallable P O F fuel)
+          (staticCallable P nm fuel) (staticCallableOk P nm fuel) path cins (selfTyOf pins) ih
+          (fun callee path id ix ixs args cins => refine_stage_fork P F nm O ρ fuel callee path id ix ixs args cins)
+          calls ⟨pins, args, []⟩ [] [] [] L hinit rfl (by simpa [typesOf] using hcalls) rfl hstore hok
+        obtain ⟨hrel, hself, htypes, hinst⟩ := hcs
+        simp only
+        generalize evalCalls P.table F P.insOf (runCallable P O F fuel) path [] calls ⟨pins, args, []⟩ [] = R
+          at hrel hself htypes hinst
+        generalize staticCalls P.table P.insOf (staticCallable P nm fuel) path cins calls [] [] = S
+          at hrel hinst
+        have hsT : R.1.selfTy = selfTyOf pins := by rw [selfTy_eq, hself]
+        have hcT : R.1.callTy = callTyOf L := by rw [callTy_typesOf, htypes]
+        have key : ∀ p ∈ outs,
+            (∀ f, narrow P.table F p.ty (match ret.lookup p.name with
+              | some e => eval P.table R.1 e
+              | none => .null)
+              = evalRT P.table F ρ f p.ty (match ret.lookup p.name with
+                | some e => filterR P.table p.ty (resolveRefs cins S.1 e)
+                | none => .lit .null)) ∧
+            HasTyR P.table p.ty (match ret.lookup p.name with
+                | some e => filterR P.table p.ty (resolveRefs cins S.1 e)
+                | none => .lit .null) := by
+          intro p hp
+          cases he : ret.lookup p.name with
+          | none => exact ⟨fun f => by simp [narrow_null hF, evalRT], HasTyR_null _ _⟩
+          | some e =>
+            have hty := hret p hp e he
+            rw [← hsT, ← hcT] at hty
+            exact ⟨fun f => (eval_resolveExp P.table hw.structs F hF ρ FsT R.1 cins S.1 hrel f trivial e p.ty hty).1,
+              (eval_resolveExp P.table hw.structs F hF ρ FsT R.1 cins S.1 hrel [] trivial e p.ty hty).2⟩
+        have c2 : ((0 : Nat) == 0 && (0 : Nat) != 0) = false := by decide
+        refine ⟨?_, ?_, hinst⟩
+        · intro f
+          simp only [evalRT, c2, Bool.false_eq_true, if_false, htab, J.obj.injEq]
+          apply List.map_congr_left
+          intro p hp
+          simp only [Prod.mk.injEq, true_and]
+          rw [lookup_evalRTMembers, lookup_map_find, find_name_of_nodup outs hn p hp,
+            memberTy_find outs p.name p (find_name_of_nodup outs hn p hp)]
+          exact (key p hp).1 f
+        · simp only [HasTyR]
+          refine ⟨trivial, trivial, outs, htab, ?_, ?_⟩
+          · apply HasTyRMembers_of_mem
+            intro k e hke _
+            simp only [List.mem_map, Prod.mk.injEq] at hke
+            obtain ⟨p, hp, hk, he⟩ := hke
+            subst hk; subst he
+            rw [memberTy_find outs p.name p (find_name_of_nodup outs hn p hp)]
+            exact (key p hp).2
+          · intro p hp
+            rw [lookup_map_find, find_name_of_nodup outs hn p hp]
+            rfl
+
+/-- THE REFINEMENT with map calls of stages of statically known size (array / typed-map
+literals, at the call or through pipeline inputs) -/
+theorem twoPhaseG_eq_den_F (hstore : ∀ n ∈ (staticProgram P nm).2, StoreAtNode nm O ρ n)
+    (hok : staticProgramOk P nm = true) :
+    runCallable P O F P.fuel P.top.callee [P.top.id] []
+        (mkArgs P.table F (argVals P.table ⟨[], .null, []⟩ (P.insOf P.top.callee) P.top) none)
+      = ((evalRT P.table F ρ [] ⟨P.top.callee, 0, 0⟩ (staticProgram P nm).1.exp),
+         (staticProgram P nm).2.flatMap (instsOf P.table F ρ)) := by
+  have henv : EnvRel P.table F ρ FsT ⟨[], .null, []⟩ [] [] := by
+    refine ⟨?_, ?_, ?_⟩
+    · intro p; simp [Env.selfTy, σexp, HasTyR_null, evalRT, J.field]
+    · intro c; simp [Env.callTy, Env.callVal, σexp, HasTyR_null, evalRT]
+    · intro c; rfl
+  have htop : CallOk P.table P.insOf (Env.selfTy ⟨[], .null, []⟩) (Env.callTy ⟨[], .null, []⟩) P.top := by
+    rw [selfTy_eq, callTy_typesOf]
+    exact hw.top.1
+  have hargs := args_stepT P.table hw.structs F hF ρ P.insOf ⟨[], .null, []⟩ [] [] henv P.top htop
+  have := refine_callableG P hw F hF nm O ρ P.fuel P.top.callee [P.top.id] _ _ hargs hstore hok
+  obtain ⟨g1, g2, g3⟩ := this
+  exact Prod.ext (g1 []) g3
+
+end graphG
+
 end Proofs.ResolverStatic
